@@ -132,7 +132,8 @@ def sc(t, e, r):
 
 
 INST_Q = [('i8', 3, 'i32', 0, 10), ('i32', -8, 'i32', -8, 2), ('i32', -8, 'i16', -4, 2), ('i16', -4, 'i32', -8, 2), ('u8', 0, 'i32', -20, 2),
-          ('i64', -30, 'i32', -8, 2), ('u32', 3, 'u16', 10, 2), ('i32', -2, 'i32', 0, 10), ('i64', 70, 'i64', 8, 2)]
+          ('i64', -30, 'i32', -8, 2), ('u32', 3, 'u16', 10, 2), ('i32', -2, 'i32', 0, 10), ('i64', 70, 'i64', 8, 2),
+          ('i64', 0, 'i8', -4, 2)]        # larger exponent AND wider rep on the left (shape missed by C03's first plan, seed C03_2)
 INST_T = INST_Q + [('i8', -7, 'i8', 0, 2), ('u16', -16, 'i16', -15, 2), ('i64', -62, 'i64', 0, 2), ('i32', 0, 'i64', -30, 2),
                    ('u64', -1, 'u64', -64, 2), ('i16', 2, 'i64', 1, 10), ('i32', -3, 'i16', -1, 10), ('i128', -64, 'i128', 0, 2),
                    ('i32', 70, 'i32', 69, 2), ('i16', 5, 'i16', 0, 10), ('i32', -70, 'i16', -63, 2), ('u8', -8, 'u8', -1, 2), ('i16', -1, 'u16', 0, 2)]
